@@ -10,6 +10,7 @@ package main
 import (
 	"fmt"
 	"math"
+	"strings"
 
 	"github.com/csgura/fp"
 	"github.com/csgura/fp/hlist"
@@ -34,7 +35,7 @@ type arities struct {
 // base value, an all-alternative-representation copy, and for EVERY position k a value that
 // differs from the base in position k only, so an implementation that skips a position
 // cannot pass.
-func arityInst[T any](head string, n int, e fp.Eq[T], h fp.Hashable[T], mk func(c []any) T, split func(any) []any, open, sep, close string, kids ...*node) *inst[T] {
+func arityInst[T any](head string, n int, e func() fp.Eq[T], h func() fp.Hashable[T], mk func(c []any) T, split func(any) []any, open, sep, close string, kids ...*node) *inst[T] {
 	mkDom := func() []any {
 		rs := make([]reps, n)
 		for j := range rs {
@@ -57,6 +58,7 @@ func arityInst[T any](head string, n int, e fp.Eq[T], h fp.Hashable[T], mk func(
 		return dom
 	}
 	nd := &node{name: head, head: head, depth: 2, kids: kids, dom: mkDom(), mkDom: mkDom, cSize: 4, ref: prodRef(kids, split), show: prodShow(kids, split, open, sep, close), memo: map[string]string{}, known: map[string]bool{}}
+	nd.mut = prodMut(kids, split)
 	return finish(nd, e, h)
 }
 
@@ -178,6 +180,50 @@ func lawScenario(r *mc.Registry, name string, nodes []*node) {
 	sc.SplitDepth = 2
 }
 
+// historyScenario: every call/write sequence of depth histDepth on one long-lived instance.
+func historyScenario(r *mc.Registry, nodes []*node) (mutableNodes int) {
+	for _, n := range nodes {
+		n.histAlphabet()
+		if n.mutable {
+			mutableNodes++
+		}
+	}
+	sc := r.Seq("history", func(x *mc.X) {
+		n := nodes[x.Choose(len(nodes), "instance")]
+		ops := n.histAlphabet()
+		seq := make([]int, histDepth)
+		writes, calls := 0, 0
+		for d := range seq {
+			seq[d] = x.Choose(len(ops), "step")
+			if ops[seq[d]].kind == "mut" {
+				writes++
+			} else {
+				calls++
+			}
+		}
+		x.Tag("history: " + n.name)
+		law, fam, msg, trace := n.history(seq)
+		for _, t := range trace {
+			x.Logf("%s", t)
+		}
+		if law != "" {
+			cu := n.histCulprit()
+			via := ""
+			if cu != n {
+				via = fmt.Sprintf(" (attributed to the component instance %s, which violates %q in the history family on its own)", cu.name, cu.histcheck())
+			}
+			x.Fail(fam+"."+cu.head+"/"+law, "%s%s", msg, via)
+		}
+		x.Observe(n.name, strings.Join(trace, ";"))
+		if writes > 0 && calls > 0 {
+			x.NonTrivial()
+			x.Tag("history: sequences with a write into a referent between calls")
+		}
+	})
+	sc.SplitDepth = 2
+	return
+}
+
 func orOK(s string) string {
 	if s == "" {
 		return "ok"
@@ -187,7 +233,7 @@ func orOK(s string) string {
 
 func main() {
 	mc.Main("C09", func(r *mc.Registry) {
-		r.Rule = "execution = (instance expression, a, b, c, family eq|hash) with a,b,c ranging over the whole value domain of the instance's type (all triples; for the arity blocks in the quick tier c ranges over 4 values, a and b over all n+4 values, one of which differs from the base in position k only, for every k); each execution evaluates Eqv(a,a), Eqv(a,b), Eqv(b,a), Eqv(b,c), Eqv(a,c) and Hash(a) twice, Hash(b) on the library's instance and compares with component-wise equality computed by plain loops; the operand domain is built fresh inside every execution; the slice-like carriers (Seq, Slice, Bytes) contain aliasing values — views base[:1], base[:2], base (same start, different lengths) and base[1:] of one array next to an independent copy of base[:2] — and hand (view, copy, longer view) to every enclosing combinator; non-trivial = a, b, c are three different domain elements; distinct outcome = (family, instance, equality pattern of the triple)"
+		r.Rule = "history: execution = (instance expression, sequence of histDepth steps) for EVERY sequence over the alphabet {Hash(a|b|c), Eqv of each pair, and for operands with a mutable referent a write of new contents in place (*p = v, s[0] = v, m[\"a\"] = v; operands 0 and 2, two contents)} on ONE long-lived constructed instance; each call must equal what a freshly constructed instance answers for the current values, and afterwards Eqv(a,b) => Hash(a)==Hash(b) on the long-lived instance; the library instances of the law family are constructed anew inside every execution as well; execution = (instance expression, a, b, c, family eq|hash) with a,b,c ranging over the whole value domain of the instance's type (all triples; for the arity blocks in the quick tier c ranges over 4 values, a and b over all n+4 values, one of which differs from the base in position k only, for every k); each execution evaluates Eqv(a,a), Eqv(a,b), Eqv(b,a), Eqv(b,c), Eqv(a,c) and Hash(a) twice, Hash(b) on the library's instance and compares with component-wise equality computed by plain loops; the operand domain is built fresh inside every execution; the slice-like carriers (Seq, Slice, Bytes) contain aliasing values — views base[:1], base[:2], base (same start, different lengths) and base[1:] of one array next to an independent copy of base[:2] — and hand (view, copy, longer view) to every enclosing combinator; non-trivial = a, b, c are three different domain elements; distinct outcome = (family, instance, equality pattern of the triple)"
 		r.Assumptions = []string{
 			"NaN is excluded from the float domains (the property excludes it)",
 			"Hash values are free: only determinism and Eqv(a,b) => Hash(a)==Hash(b) are demanded",
@@ -219,6 +265,11 @@ func main() {
 		grammarNodes := append(append(append(append([]*node{}, d0...), extra.nodes...), d1...), d2...)
 		lawScenario(r, "grammar", grammarNodes)
 		lawScenario(r, "arity", append(append([]*node{}, tup...), hc...))
+		if r.Thorough() {
+			histDepth = 4
+		}
+		histNodes := append(append(append([]*node{}, grammarNodes...), tup...), hc...)
+		mutableNodes := historyScenario(r, histNodes)
 
 		heads := map[string]int{}
 		hashable := 0
@@ -231,13 +282,16 @@ func main() {
 			}
 		}
 		r.Extra["bounds"] = map[string]any{
-			"instance_expressions":           len(all),
-			"of_which_also_hash_instances":   hashable,
-			"nesting_depth":                  2,
-			"domain_cap_per_type":            domCap,
-			"tuple_arities":                  len(tup),
-			"hcons_chain_lengths":            len(hc),
-			"instances_per_head_constructor": heads,
+			"instance_expressions":                     len(all),
+			"of_which_also_hash_instances":             hashable,
+			"nesting_depth":                            2,
+			"history_depth":                            histDepth,
+			"history_instances":                        len(histNodes),
+			"history_instances_with_mutable_referents": mutableNodes,
+			"domain_cap_per_type":                      domCap,
+			"tuple_arities":                            len(tup),
+			"hcons_chain_lengths":                      len(hc),
+			"instances_per_head_constructor":           heads,
 		}
 		r.Extra["uncovered"] = []string{
 			"eq.Given/hash.Number at NaN: excluded by the property",
